@@ -385,7 +385,13 @@ func (p *parser) parseOpaqueHost(u *Url, input string) (string, error) {
 			}
 		}
 		if c == '%' {
-			invalidPercentEncoding, d := remainingIsInvalidPercentEncoded([]rune(input[i:]))
+			// only the next three code points matter (at most 12 bytes); converting the whole
+			// remaining input for every '%' is quadratic
+			rest := input[i:]
+			if len(rest) > 12 {
+				rest = rest[:12]
+			}
+			invalidPercentEncoding, d := remainingIsInvalidPercentEncoded([]rune(rest))
 			if invalidPercentEncoding {
 				if err := p.handleErrorWithDescription(u, errors.InvalidURLUnit, false, d); err != nil {
 					return "", err
